@@ -387,3 +387,23 @@ def stmt_calls(f, resolver, qualnames: set[str]) -> list[ast.Call]:
             out.append(cs.node)
     out.sort(key=lambda c: (c.lineno, c.col_offset))
     return out
+
+
+def flow_closure(f, expr: ast.expr) -> set[str]:
+    """Names the value of ``expr`` may derive from inside function ``f``: transitive closure
+    over *all* local definitions (assignments and augmented assignments) of the names met."""
+    node = f.node if isinstance(f, FuncInfo) else f
+    live = set(names_in(expr))
+    body = [s for s in walk_ordered(node) if isinstance(s, (ast.Assign, ast.AugAssign, ast.AnnAssign))]
+    changed = True
+    while changed:
+        changed = False
+        for s_ in body:
+            tg = s_.targets if isinstance(s_, ast.Assign) else [s_.target]
+            tn = {x.id for t in tg for x in ast.walk(t) if isinstance(x, ast.Name)}
+            if tn & live and getattr(s_, "value", None) is not None:
+                add = names_in(s_.value) - live
+                if add:
+                    live |= add
+                    changed = True
+    return live
